@@ -763,6 +763,96 @@ Definition case_extract (w calls stat avg el ec pr n wn pw ln tr tc : nat) : pro
   let '(p0, hs) := if pos w then h_set "EstimatesExtraction::setMobileAverageWindowSize" h_init w else ([], h_init) in
   p0 ++ p_ext_calls calls stat avg el ec pr n wn pw ln tr tc hs.
 
+(* ------------------------------------------------------------------ *)
+(* EstimatesExtraction as a state machine: operation SEQUENCES on ONE object.
+   The object keeps, between calls: the extraction method (statistic, averaging family), the history
+   buffer (window, stored estimates with their sizes) and one cached log-weight vector per averaging
+   family (sm_weights_, wm_weights_, em_weights_), each rebuilt only when ITS OWN length differs from
+   the number of stored estimates at the call that uses it.  Neither setMethod, nor
+   setMobileAverageWindowSize, nor clear() touches the caches. *)
+
+Inductive xop :=
+| XMethod (stat avg : nat)        (* setMethod: ExtractionMethod number 4 * stat + avg *)
+| XWindow (w : nat)               (* setMobileAverageWindowSize(w); w = 0 stands for every w <= 0 (refused) *)
+| XClear                          (* clear() *)
+| XExtract (full : bool) (pr n wn pw ln tr tc : nat).
+    (* extract(particles pr x n, weights wn [, previous_weights pw, likelihoods ln, transition_probabilities tr x tc]) *)
+
+Record xstate := XS { xstat : nat; xavg : nat; xh : hstate; xels : list nat; xsm : nat; xwm : nat; xem : nat }.
+Definition x_init := XS 1 3 h_init [] 0 0 0.          (* extraction_method_ = emode, window 5, empty caches *)
+Definition e_ext_win := "EstimatesExtraction::setMobileAverageWindowSize".
+
+(* HistoryBuffer::getHistoryBuffer on k stored elements of sizes [els] (most recent first) *)
+Definition p_h_get (e : string) (ssz k : nat) (els : list nat) : prog :=
+  flat_map (fun ie => [ It e "hist_out.col(i)" (Idx k (fst ie)); It e "col(i)=element" (Same ssz 1 (snd ie) 1) ])
+           (combine (seq 0 (List.length els)) els).
+
+Definition x_cache (avg : nat) (s : xstate) : nat := match avg with 1 => xsm s | 2 => xwm s | _ => xem s end.
+Definition x_set_cache (avg : nat) (s : xstate) (h : hstate) (els : list nat) (c : nat) : xstate :=
+  match avg with
+  | 1 => XS (xstat s) (xavg s) h els c (xwm s) (xem s)
+  | 2 => XS (xstat s) (xavg s) h els (xsm s) c (xem s)
+  | _ => XS (xstat s) (xavg s) h els (xsm s) (xwm s) c
+  end.
+(* the tail of simpleAverage / weightedAverage / exponentialAverage on a history of k columns:
+     if (<cache of size probe>.size() != history.cols()) rebuild the family's cache with history.cols() entries;
+     return mean(history, <the family's cache>);
+   [probe] is the size of the cache the code EXAMINES, [c] the size of the cache it multiplies with — in the
+   code as it is they are the same vector; the new size of that cache is returned *)
+Definition x_avg_tail (avg el ec k probe c : nat) : prog * nat :=
+  let c' := if probe =? k then c else k in
+  (when (negb (probe =? k))
+     (match avg with
+      | 1 => [ It e_ext "sm_weights_=Constant(cols)" Free ]
+      | _ => [ It e_ext "weights_.resize(cols)" Free ] ++
+             for_ k (fun i => [ It e_ext "weights_(i)" (Idx k i) ]) ++
+             [ It e_ext "log_sum_exp:maxCoeff" (Idx k 0) ]
+      end) ++
+   p_ext_mean el ec (el + ec) k c', c').
+
+(* one operation: program, new state, observable return values *)
+Definition x_step (el ec : nat) (s : xstate) (o : xop) : prog * xstate * list nat :=
+  let ssz := el + ec in
+  match o with
+  | XMethod stat avg => ([], XS stat avg (xh s) (xels s) (xsm s) (xwm s) (xem s), [1])
+  | XWindow w =>
+      if pos w then
+        let '(p, h') := h_set e_ext_win (xh s) w in
+        (p, XS (xstat s) (xavg s) h' (firstn (hsz h') (xels s)) (xsm s) (xwm s) (xem s), [1])
+      else ([], s, [0])
+  | XClear => ([], XS (xstat s) (xavg s) (HS (hwin (xh s)) 0) [] (xsm s) (xwm s) (xem s), [1])
+  | XExtract full pr n wn pw ln tr tc =>
+      (* the two-argument overload cannot evaluate the map family: it reports false and evaluates nothing;
+         the five-argument overload forwards the mean and mode families to the two-argument one *)
+      if (2 <=? xstat s) && negb full then ([], s, [0; ssz])
+      else
+        let stat := xstat s in
+        let cur := ext_stat_rows stat el ec pr in
+        let ps := p_ext_stat stat el ec pr n wn pw ln tr tc in
+        match xavg s with
+        | 0 => (ps, s, [1; cur])
+        | avg =>
+            let '(pa, h') := h_step ssz (xh s) (HAdd cur) in
+            let els' := firstn (hsz h') (cur :: xels s) in
+            let k := hsz h' in
+            let '(pt, c') := x_avg_tail avg el ec k (x_cache avg s) (x_cache avg s) in
+            (ps ++ relabel e_ext pa ++ p_h_get e_ext ssz k els' ++ pt, x_set_cache avg s h' els' c', [1; ssz])
+        end
+  end.
+
+Fixpoint x_run (el ec : nat) (s : xstate) (ops : list xop) : prog * list nat * list nat :=
+  match ops with
+  | [] => ([], [], [])
+  | o :: r =>
+      let '(p, s', ob) := x_step el ec s o in
+      let '(p2, ob2, w2) := x_run el ec s' r in
+      (p ++ p2, ob ++ ob2, hwin (xh s') :: w2)
+  end.
+Definition case_extseq (el ec : nat) (ops : list xop) : prog := fst (fst (x_run el ec x_init ops)).
+Definition obs_extseq (el ec : nat) (ops : list xop) : list nat := snd (fst (x_run el ec x_init ops)).
+(* the window after every operation (the harness reads it from getInfo()) *)
+Definition win_extseq (el ec : nat) (ops : list xop) : list nat := snd (x_run el ec x_init ops).
+
 (* UKFCorrection::getLikelihood after a successful step: innovations ir x comps, Py_i mdc x mdc *)
 Definition p_ukf_lik (comps ir mdc : nat) : prog :=
   for_ comps (fun i => [ It e_ukfl "innovations_.col(i)" (Idx comps i);
